@@ -95,11 +95,11 @@ func symExprB(v ssa.Value, depth int, bind map[*ssa.Parameter]string) string {
 		return x.Op.String() + symExpr(x.X, d)
 	case *ssa.FieldAddr:
 		if f := fieldOf(x); f != nil {
-			return symExpr(x.X, d) + "." + f.Name()
+			return symExpr(x.X, d) + "." + roleOf(f)
 		}
 	case *ssa.Field:
 		if f := fieldOf(x); f != nil {
-			return symExpr(x.X, d) + "." + f.Name()
+			return symExpr(x.X, d) + "." + roleOf(f)
 		}
 	case *ssa.IndexAddr:
 		return symExpr(x.X, d) + "[" + symExpr(x.Index, d) + "]"
